@@ -88,6 +88,8 @@ def run_history(case):
     with symbolic_mode():
         x = let(M, domain=objs)
         qs = [an(entity(xi := let(M, domain=objs), xi.a >= 2)) for _ in range(3)]      # two rows each
+        # iterator 1: every advance runs a predicate that opens a block of its own and evaluates a query there (nested evaluate())
+        qs[1] = an(entity(xn := let(M, domain=objs), and_(xn.a >= 2, Probe(m=xn))))
         blockq = an(entity(let(M, domain=objs)))
         # the(...) queries with exactly one, no and several solutions
         thes = {'one': the(entity(t1 := let(M, domain=objs), t1.a >= 3)), 'none': the(entity(t0 := let(M, domain=objs), t0.a >= 4)),
